@@ -7,6 +7,9 @@ package main
 //	          an evaluating wrapper that gives every point a unique value and sleeps
 //	          pseudo-randomly) recorded as point -> slot and compared with Sched.batch_plan in Coq;
 //	          direct oracle: the layer array is map f points.
+//	      (a') very large layers (up to 100x / 400x what can be in flight) with an exact field whose
+//	          chosen evaluations are held back so that batches complete far out of dispatch order,
+//	          alone and next to other layers; one whole render of a thin plate likewise (biglayer.go).
 //	      (b) models rendered under GOMAXPROCS 1,2,3,4,8,16, with sleeping Evaluate wrappers,
 //	          with other renders before and at the same time: triangle / line sequences and
 //	          STL, DXF, SVG bytes must be identical, 3MF identical after unzipping.
@@ -47,7 +50,7 @@ func main() {
 		childMain(os.Args[2:])
 		return
 	}
-	Main("C09", checkC09, func(c *Ctx) (string, []byte, error) { return effsum.Gen(c.Repo) }, sysgen.Gen)
+	Main("C09", checkC09, func(c *Ctx) (string, []byte, error) { return effsum.Gen(c.Repo) }, sysgen.Gen, stateGen)
 }
 
 // ---------------------------------------------------------------------------- batch plan
@@ -756,6 +759,14 @@ func checkC09(c *Ctx, r *Report) error {
 	if err := cs.Write(c.Out); err != nil {
 		return err
 	}
+	// very large layers (many times what can be in flight) under adversarial evaluation timing (biglayer.go)
+	{
+		t0 := time.Now()
+		brng := NewRng(c.Seed ^ 0xB16_1A7E5)
+		bigLayers(c, r, brng, B)
+		wholeRenderTiming(c, r, brng, B)
+		r.Coverage["big_layer_seconds"] = math.Round(time.Since(t0).Seconds()*10) / 10
+	}
 
 	// ---- (b) determinism of whole renders
 	env := &concshapes.Env{Repo: c.Repo, Tmp: c.Out}
@@ -1031,7 +1042,7 @@ func checkC09(c *Ctx, r *Report) error {
 	r.Coverage["render_configurations"] = configs
 	r.Coverage["batchSize"] = B
 	r.Coverage["gomaxprocs"] = []int{1, 2, 3, 4, 8, 16}
-	r.Rule = "layer cases: one layerYZ.Evaluate of a (ny+1)*(nz+1) layer through the hook, with an evaluating wrapper that gives the j-th point the value j (and sleeps pseudo-randomly in half of the cases); recorded point->slot list compared with Sched.batch_plan by coqc, and layer = map f points checked directly; sizes: k*B-1, k*B, k*B+1 for k in 1,2,3,7 in every factorisation with ny<12, random small / medium / thin / large layers; non-trivial = more than one batch; distinct by (ny,nz,sleepy). render cases: one (model, renderer, sink) job rendered 1 + 6 + rounds times: alone under GOMAXPROCS=1 (reference), under GOMAXPROCS 2,3,4,8,16,1 in shuffled order with run-dependent sleeping Evaluate wrappers on half of them, and all jobs concurrently; triangle sequence hash / STL, DXF, SVG bytes / unzipped 3MF entries must be identical; non-trivial = always; distinct by job. process cases: fine-grid jobs (2D uniform/quadtree at 100..400 cells as exact segment sequences and DXF/SVG bytes, octree at 33..128 cells and uniform at 40..56 cells as exact triangle sequences and STL bytes) rendered 3+ times in one fresh process per GOMAXPROCS in 1,2,3,8,16, all processes at once; every observable must equal the first render of the GOMAXPROCS=1 process. file-history cases: each of ToSTL (uniform, octree), SaveSTL, To3MF, ToDXF, SaveDXF, ToSVG, SaveSVG writes a small render to a path that already holds a bigger render by the same writer / longer / equally long / shorter unrelated bytes / nothing; the bytes (3MF: unzipped entries) must equal those written to a fresh path. renderer-value histories: one value of each renderer type (uniform / octree cubes, uniform / quadtree squares, 2D dual contouring) is asked for Info / Render of four models of different size, position and shape in four orders (big then small, Info only then another model, repeats); Info strings and exact triangle / segment sequences must equal those of a fresh value."
+	r.Rule = "layer cases: one layerYZ.Evaluate of a (ny+1)*(nz+1) layer through the hook, with an evaluating wrapper that gives the j-th point the value j (and sleeps pseudo-randomly in half of the cases); recorded point->slot list compared with Sched.batch_plan by coqc, and layer = map f points checked directly; sizes: k*B-1, k*B, k*B+1 for k in 1,2,3,7 in every factorisation with ny<12, random small / medium / thin / large layers; non-trivial = more than one batch; distinct by (ny,nz,sleepy). render cases: one (model, renderer, sink) job rendered 1 + 6 + rounds times: alone under GOMAXPROCS=1 (reference), under GOMAXPROCS 2,3,4,8,16,1 in shuffled order with run-dependent sleeping Evaluate wrappers on half of them, and all jobs concurrently; triangle sequence hash / STL, DXF, SVG bytes / unzipped 3MF entries must be identical; non-trivial = always; distinct by job. process cases: fine-grid jobs (2D uniform/quadtree at 100..400 cells as exact segment sequences and DXF/SVG bytes, octree at 33..128 cells and uniform at 40..56 cells as exact triangle sequences and STL bytes) rendered 3+ times in one fresh process per GOMAXPROCS in 1,2,3,8,16, all processes at once; every observable must equal the first render of the GOMAXPROCS=1 process. file-history cases: each of ToSTL (uniform, octree), SaveSTL, To3MF, ToDXF, SaveDXF, ToSVG, SaveSVG writes a small render to a path that already holds a bigger render by the same writer / longer / equally long / shorter unrelated bytes / nothing; the bytes (3MF: unzipped entries) must equal those written to a fresh path. renderer-value histories: one value of each renderer type (uniform / octree cubes, uniform / quadtree squares, 2D dual contouring) is asked for Info / Render of four models of different size, position and shape in four orders (big then small, Info only then another model, repeats); Info strings and exact triangle / segment sequences must equal those of a fresh value. big-layer cases (biglayer.go): one layerYZ.Evaluate through the hook of a layer with about 2.5x, 20x and 100x (thorough: up to 400x) as many points as can be in flight at once ((queue capacity read from the source + evaluation routines + 1) * batch size), square / few long rows / many short rows, with an exact cheap field (point j has value j) whose chosen evaluations are HELD until a stated number of other evaluations of the layer have started: plain, first point of the first batch until all other batches are done, a point inside a batch, all routines but one starved and released in reverse dispatch order, rolling lag (every s-th batch held for 2x / 8x / 32x the in-flight bound), first point of every k-th batch slow, last point held until all others started and then slow; concurrent: the first point of a small (or big) layer A held while 1..3 very large layers of another field are evaluated from start to end; oracle: layer array = map f points cell by cell, every point evaluated once, no evaluation outside the layer; non-trivial = always; distinct by (ny,nz,timing). big-render case: MarchingCubesUniform of a thin plate model (3 cells thick, layers of about 40x the in-flight bound, surface through every cell column) into a hashing Triangle3Writer: plain render, render whose evaluations return the same values but every s-th of them (by ordinal of start, no hook) is held for 8x..32x the in-flight bound, plain render again; exact triangle sequences must be equal."
 	r.Trusted = append(r.Trusted,
 		"harness/effsum (see C10) for the premise that no map range, math/rand, time, unsynchronised shared store or extra go statement is reachable from Render/Evaluate; the whitelist is coq/Sys/Sched.v section 4",
 		"hook render.VerifLayerEvaluate (verif tag) calls evalOnce.Do(evalRoutines), newLayerYZ and layerYZ.Evaluate as marchingCubes does",
@@ -1044,6 +1055,6 @@ func checkC09(c *Ctx, r *Report) error {
 		"third-party output libraries (yofu/dxf, ajstarks/svgo, hpinc/go3mf, qmuntal/opc, gonum) are not analysed; 3MF is compared after unzipping, entry by entry, with [Content_Types].xml taken as a set of lines (qmuntal/opc writes the declarations in Go map iteration order, so raw 3MF bytes differ from run to run - the property asks for decoded content only)",
 		"the 3D dual contouring renderers (render/dc, channel API, not a Render3) are covered by the effect whitelist only",
 		"the model is given: constructing the same text/bezier shape twice in one process draws different numbers from the library's process-wide pseudo-random source (sdf/bezier.go) unless the source is reset (hook sdf.VerifResetRand); renders do not touch that source (no ERand in render_summaries)",
-		"the run-time part exhibits only the schedules the Go scheduler happened to produce")
+		"the run-time part exhibits only the schedules the Go scheduler happened to produce, plus the ones forced by holding chosen evaluations (biglayer.go: lags of up to one whole layer of 100x the in-flight bound in the quick tier)")
 	return nil
 }
